@@ -7,7 +7,7 @@ BASE_OFF = ("cd /repo && cargo nextest run --workspace --no-fail-fast --tool-con
 
 CHECKS = {
  "C09": dict(
-   technique="static analysis: all-paths make/unmake balance dataflow over type-checked MIR (rustc_private driver) + path counting of best_move emissions",
+   technique="static analysis: all-paths make/unmake balance dataflow over type-checked MIR (rustc_private driver), path counting of best_move emissions, panic-site inventory of the search thread",
    text="Every CFG path of every function outside the board crate is explored in the product (block x outstanding makes x return kind); a path that returns with a move still made on a borrowed board is reported with its witness. This decides the take-back mechanism for every interruption point at once; it does not decide score equality. R3 (shared with C07.R4): the panic-site inventory of the search thread, because 'an interrupted search still answers with exactly one bestmove' fails if the thread dies between the interruption and the answer (Duration arithmetic, unwrap, indexing).",
    note="Trusted: rustc's MIR construction and callee resolution, the JSON fact extractor, the ~100-line exploration. Assumes make/unmake are the only in-place board mutators used by the search (C03 checks they mirror each other). Unwind paths ignored.",
    ref="4/C09"),
@@ -37,7 +37,7 @@ CHECKS = {
    note="Trusted: rustc MIR, the extractor, the path evaluator and bit-mask transfer functions (about 150 lines).",
    ref="4/C03"),
  "C10": dict(
-   technique="static analysis: constant evaluation of trait constants per implementing type, operand inspection of comparisons on Bitboard.halfmove_clock, dominance / post-dominance of history writes, region inspection of the repetition branch",
+   technique="static analysis: constant evaluation of trait constants per implementing type, exhaustive folding of every comparison that involves Bitboard.halfmove_clock over clock 0..4200 x side to move, dominance / post-dominance of history writes, region inspection of the repetition branch",
    text="Decides that no comparison involving the ply counter - directly, inside an arithmetic expression or behind a helper, evaluated for every clock value 0..4200, both sides to move and every implementing heuristic - can select the fifty-move draw below 100 plies, that every node which expands children has recorded itself in the history first, that a clock guard in front of the repetition test lets every clock >= 8 through, that the history is written before it is counted and after every replayed move, that the repetition threshold is exactly three and that the repetition value is built from the draw score / contempt / ply parity only. Does not decide repetition counting over arbitrary histories.",
    note="Trusted: rustc const evaluation and MIR, the extractor. Assumes make adds exactly 1 to the clock per ply (C02.R3).",
    ref="4/C10"),
@@ -59,7 +59,7 @@ CHECKS = {
    ref="4/C04"),
  "C11": dict(
    level="proof",
-   technique="static analysis: exhaustive comparison of compiler-evaluated piece-square tables, full truth-table enumeration of game_stage from MIR paths, affine-form comparison of the terminal scores",
+   technique="static analysis: exhaustive comparison of compiler-evaluated piece-square tables, full truth-table enumeration of game_stage from MIR paths, affine-form comparison of the terminal scores and of the mate-distance formula (with make's move-number rule simulated ply by ply from its MIR paths)",
    text="Finite and complete for the static evaluation: all 3x6x64 + 2x6x64 table entries satisfy B[s][p][sq^56] = -W[s][p][sq]; white/black are paired with the two tables at the same stage and each piece with its row; game_stage's truth table (2^4 rows) is invariant under swapping the players; the material term is f(white) - f(black); the two mate scores are exact negations, affine in the move number with the sign that prefers nearer mates; the colour factor folds to +1/-1; R5: the mate distance formula of score_from_value, read as an affine form, equals +N / -N for a mate in N for both colours when the move number of the mating position is obtained by simulating make's own side/number update ply by ply. Search-score symmetry for non-terminal scores is not decided.",
    note="Trusted base: rustc const evaluation + MIR, the extractor, the path enumerator and affine evaluator. Assumes PlayerState accessors are colour-blind (they take one PlayerState).",
    ref="4/C11"),
@@ -94,7 +94,7 @@ CHECKS = {
    note="Trusted: rustc MIR + const evaluation, the extractor, path evaluator, geometry oracle. The mirror rule judges only pairs it recognises (shifts by 8, u64 masks, +-8, players, per-square tables); other pairs are counted as not judged in the evidence.",
    ref="4/C01"),
  "C08": dict(
-   technique="static analysis: operand-shape inspection of the recursive calls and control-dependence classification of transposition bound types on MIR",
+   technique="static analysis: operand-shape inspection of the recursive calls, sign-parity dataflow of the child value, control-dependence classification of transposition bound types, and a reviewed inventory (exact keys) of every exit / loop skip / loop break of the two recursive searches, all on MIR",
    text="Decides the negamax sign discipline of both recursive searches (window = negated own beta, negated own alpha; sign-parity dataflow: every use of the child's value sees it negated exactly once), the transposition-table bound classification on store and probe, that the evaluator's legal-moves flag is backed by evidence, and - R4 - that every way the two searches stop searching (every exit, every move skipped without the recursive call, every way out of the move loop) is one of 18 reviewed ones (tables/search_exits.json, keyed by the atoms of its immediate guard): a new cut-off (delta/futility/late-move pruning, an early fail-low) is reported until someone argues it sound. These are necessary conditions of exact minimax values; values, pruning soundness in general and mate distances are not decided.",
    note="Trusted: rustc MIR, the extractor. Thin claim by design (DESIGN.md section 4/C08).",
    ref="4/C08"),
